@@ -15,16 +15,16 @@ import (
 
 // EntryReport is what one generator function yields.
 type EntryReport struct {
-	Entry      string
-	Paths      int
-	OkPaths    int
-	ErrPaths   int
-	Infeasible int
+	Entry        string
+	Paths        int
+	OkPaths      int
+	ErrPaths     int
+	Infeasible   int
 	OutOfGrammar int
-	Results    []driver.ObResult
-	Queries    []*smt.Query
-	Obls       []*vc.Obligation
-	Samples    []string
+	Results      []driver.ObResult
+	Queries      []*smt.Query
+	Obls         []*vc.Obligation
+	Samples      []string
 }
 
 func okPath(p *geval.Path) bool {
@@ -307,6 +307,7 @@ func (rep *EntryReport) Solve(r *smt.Runner) {
 		rep.Results = append(rep.Results, driver.ObResult{Name: o.Name, ID: o.ID, Kind: o.Kind, Func: o.Func, Status: x.Status, Backend: x.Backend,
 			Millis: x.Millis, File: x.File, Model: x.Model, Output: out, Layer: "O"})
 	}
+	rep.Results = driver.MergeProbes(rep.Results)
 }
 
 // outOfGrammar: paths over types the properties' grammar does not contain
